@@ -11,25 +11,48 @@ namespace Pybtex.Spec
 inductive TokCase | upper | lower | caseless
 deriving DecidableEq, Repr
 
+/-! Character classes.  BibTeX itself knows the ASCII letters only; the rule is stated with the
+classes the implementation runs with — Python's `str.isalpha` / `isupper` / `islower` on one
+character (`isAlphaN` / `isUpperN` / `isLowerN`, tables regenerated from the interpreter), which
+coincide with the ASCII classes below U+0080 (`Names.ascii_classes`).  Beyond ASCII "letter"
+and "cased" are independent: a letter may have no case (毛, ב, 김, U+02BB, titlecase ǅ), and a
+cased character need not be a letter (Ⓐ U+24B6, ⓐ U+24D0, U+0345).  No character is both upper
+and lower case (`Names.upper_lower_disjoint`). -/
+
+/-- case of one character; a character that is neither upper nor lower case (digits,
+punctuation, letters of scripts without case, titlecase letters) is caseless. -/
+def charCase (c : Char) : TokCase :=
+  if isUpperN c then .upper else if isLowerN c then .lower else .caseless
+
 /-- case of a special character `\cs…`: the case of the first letter after the control
 sequence (= after the first non-letter that follows the backslash); none ⇒ caseless. -/
 def specialCase (sc : Str) : TokCase :=
-  let afterCs := (sc.drop 1).dropWhile isAlpha      -- starts at the first non-letter (or is empty)
-  match (afterCs.drop 1).find? isAlpha with
-  | some c => if isLowerA c then .lower else .upper
+  let afterCs := (sc.drop 1).dropWhile isAlphaN     -- starts at the first non-letter (or is empty)
+  match (afterCs.drop 1).find? isAlphaN with
+  | some c => charCase c
   | none => .caseless
 
-/-- case of a token: decided by the first brace-level-0 letter, or by the first special
-character (level-1 token starting with a backslash) if that comes first; else caseless. -/
+/-- case decided by the scan: the first brace-level-0 letter (a level-0 token is one
+character: `charCase` of it; a letter without case makes the token caseless), or the first
+special character (level-1 token starting with a backslash) if that comes first; else caseless. -/
 def tokCaseOf : List Tok → TokCase
   | [] => .caseless
   | (t, l) :: r =>
-    if l = 0 ∧ t ≠ [] ∧ t.all isAlpha then (if t.all isLowerA then .lower else .upper)
+    if l = 0 ∧ t ≠ [] ∧ t.all isAlphaN then
+      (if t.all isUpperN then .upper else if t.all isLowerN then .lower else .caseless)
     else if l = 1 ∧ startsWithBackslash t then specialCase t
     else tokCaseOf r
 
-/-- `none` when the token nests braces deeper than BibTeX's limit. -/
-def tokenCase (tok : Str) : Option TokCase := (scan tok).map tokCaseOf
+/-- The case of a token.  A token whose first character is cased has that case (for a letter
+this is what the scan gives as well, `Names.tokenCase_eq_scan`; a cased character that is not a
+letter counts in this position only); otherwise the first brace-level-0 letter or special
+character decides.  `none` when the token nests braces deeper than BibTeX's limit. -/
+def tokenCase (tok : Str) : Option TokCase :=
+  (scan tok).map fun toks =>
+    match tok.head?.map charCase with
+    | some .upper => .upper
+    | some .lower => .lower
+    | _ => tokCaseOf toks
 
 def isLow (tok : Str) : Bool := tokenCase tok = some .lower
 
@@ -84,10 +107,10 @@ def caseTokens (name : Str) : List Str :=
   | a :: _ => (splitTex .space a).dropLast
 
 /-- The case of the token is decidable within BibTeX's brace-nesting limit: the token scans,
-or it starts with an ASCII capital (then it is upper-case whatever follows). -/
+or it starts with an upper-case character (then it is upper-case whatever follows). -/
 def caseKnown (tok : Str) : Bool :=
   (match tok with
-   | c :: _ => isUpperA c
+   | c :: _ => isUpperN c
    | [] => false) || (scan tok).isSome
 
 end Pybtex.Spec
